@@ -21,6 +21,7 @@ class Types:
         self.mods: dict[str, dict[str, str]] = data["modules"]
         self.n = sum(len(v) for v in self.mods.values())
         self.errors = data.get("errors", 0)
+        self.messages: list[str] = data.get("messages", [])
 
     def of(self, m: Module, node: ast.AST) -> str | None:
         d = self.mods.get(m.name)
